@@ -753,7 +753,7 @@ Section Inv.
     { exists j. auto. }
     pose proof (apply_th _ _ _ _ AP) as TH.
     pose proof (apply_log _ _ _ _ AP) as LG.
-    set (s' := set_th s1 t x' ev) in *.
+    remember (set_th s1 t x' ev) as s' eqn:ES.
     assert (OTH : forall u, u <> t -> th s' u = th s u).
     { intros u N. subst s'. cbn. rewrite TH. now rewrite upd_other. }
     assert (OWN : th s' t = x').
@@ -844,10 +844,10 @@ Section Inv.
     assert (K : Inv s /\ Qinv s /\ Jrel s).
     { revert s R.
       apply (reachable_ind_inv _ (step cf) (fun s => Inv s /\ Qinv s /\ Jrel s)).
-      - repeat split; [apply inv_init|apply qinv_init|apply jrel_init].
+      - split; [apply inv_init|split; [apply qinv_init|apply jrel_init]].
       - intros s0 t s' (I & Q & J) H.
         assert (I' : Inv s') by (eapply inv_step; eauto).
-        repeat split; auto; [eapply qinv_step|eapply jrel_step]; eauto. }
+        split; [exact I'|split; [apply (qinv_step s0 t s' I Q H)|apply (jrel_step s0 t s' I I' Q J H)]]. }
     apply K.
   Qed.
 
